@@ -19,6 +19,72 @@ def openers_closers(F, G):
     return op, cl
 
 
+class Counter:
+    """number of frames opened along each path that completes normally (path-sensitive on version gates only)"""
+
+    def __init__(self, F, v, openers, is_event=lambda n: False):
+        self.F, self.v, self.openers, self.is_event = F, v, openers, is_event
+
+    def run(self, n, st):
+        """st: frozenset of (opens, events) pairs"""
+        if not isinstance(n, dict) or not st:
+            return st
+        k = n.get("k")
+        if k == "Block":
+            for s in n.get("stmts", []):
+                st = self.run(s, st)
+            return self.run(n.get("tail"), st) if n.get("tail") else st
+        if k == "Let":
+            st = self.run(n.get("init"), st) if n.get("init") else st
+            if n.get("els") is not None:
+                self.run(n["els"], st)
+            return st
+        if k == "Expr":
+            return self.run(n["e"], st)
+        if k == "If":
+            st = self.run(n["cond"], st)
+            f = L.vcond(n["cond"])
+            if f is not None:
+                if L.feval(f, self.v):
+                    return self.run(n["then"], st)
+                return self.run(n["else"], st) if n.get("else") else st
+            return self.run(n["then"], st) | (self.run(n["else"], st) if n.get("else") else st)
+        if k == "Match":
+            st = self.run(n["scrut"], st)
+            f = L.vcond(n["scrut"])
+            out = frozenset()
+            for a in n["arms"]:
+                if f is not None and a["pat"].get("k") == "Lit" and a["pat"]["e"].get("lit") == "bool" and bool(a["pat"]["e"]["v"]) != L.feval(f, self.v):
+                    continue
+                out = out | self.run(a["body"], st)
+            return out
+        if k in ("Ret", "Break", "Continue"):
+            if n.get("e"):
+                self.run(n["e"], st)
+            return frozenset()
+        if k == "Try":
+            return self.run(n["e"], st)
+        if k in ("Loop", "For"):
+            if k == "For":
+                st = self.run(n["iter"], st)
+            return st | self.run(n["body"], st)
+        if k == "Closure":
+            return st
+        if k in ("Call", "MethodCall"):
+            for a in tir.call_args(n):
+                st = self.run(a, st)
+            c = reach.owner_of(callee(n) or "")
+            is_open = c in self.openers or (n.get("k") == "MethodCall" and n["method"] == "push" and (tir.place(n["recv"]) or "").endswith("frames.id"))
+            if is_open:
+                st = frozenset((min(o + 1, 3), e) for o, e in st)
+            if self.is_event(n):
+                st = frozenset((o, min(e + 1, 3)) for o, e in st)
+            return st
+        for c in tir.children(n):
+            st = self.run(c, st)
+        return st
+
+
 class Walker:
     def __init__(self, F, v, openers, closers):
         self.F = F
